@@ -302,6 +302,81 @@ fn tj_both(s: &mut Session, cr: &mut Crafter, rng: &mut Rng) {
     s.mark_nontrivial();
 }
 
+/// SIP004 lets a sender cut its stream into chunks anywhere — also inside the leading target address (this repository's
+/// own client never does, third-party senders do).  A Spec-built legacy stream whose address is spread over two or three
+/// chunks (every cut; also with a last address piece of exactly one byte, and with an empty payload), delivered in one
+/// read, one read per chunk, and byte by byte: same target, same payload, and the target is reported as soon as the
+/// chunk that completes it has arrived.
+pub fn ss_legacy_split_address(s: &mut Session, cr: &mut Crafter, rng: &mut Rng, thorough: bool) {
+    let ciphers = ["aes-128-gcm", "aes-256-gcm", "chacha20-poly1305"];
+    let addrs = ["4:c0000207:8080".to_owned(), "6:20010db8000000000000000000000009:443".to_owned(), format!("d:{}:80", hex(b"split.example"))];
+    for (ai, addr) in addrs.iter().enumerate() {
+        for (ci, cipher) in ciphers.iter().enumerate() {
+            if !thorough && (ai + ci) % 3 != 0 {
+                continue;
+            }
+            s.begin_case(&format!("ss-accept-split-address:{}:{}", cipher, ai));
+            let cfg = random_cfg(rng, cipher, false);
+            let n = key_len(cipher);
+            let target = target_bytes(s, addr);
+            let payload = rng.bytes(37);
+            // (chunks, index of the chunk that completes the address)
+            let mut layouts: Vec<(Vec<Vec<u8>>, usize)> = vec![];
+            for k in 1..target.len() {
+                layouts.push((vec![target[..k].to_vec(), [&target[k..], &payload[..]].concat()], 1));
+                layouts.push((vec![target[..k].to_vec(), target[k..].to_vec(), payload.clone()], 1));
+            }
+            for k in 1..target.len() - 1 {
+                // the last address piece is exactly one byte
+                layouts.push((vec![target[..k].to_vec(), target[k..target.len() - 1].to_vec(), target[target.len() - 1..].to_vec(), payload.clone()], 2));
+            }
+            for (li, (chunks, done_at)) in layouts.iter().enumerate() {
+                let salt = rng.bytes(n);
+                let cs: Vec<String> = chunks.iter().map(|c| hex(c)).collect();
+                let wire = spec(s, cr, &format!("craft.sslegacy cipher={} password={} salt={} chunks={}", cipher, cfg.client_password, hex(&salt), cs.join(";")));
+                let Some(wire) = unhex(&wire) else {
+                    s.oracle_fail("craft", "spec builder unavailable");
+                    return;
+                };
+                // wire boundaries of the chunks: salt, then 2 + tag + len + tag per chunk
+                let mut bounds = vec![n];
+                for c in chunks {
+                    bounds.push(bounds.last().unwrap() + 2 + 16 + c.len() + 16);
+                }
+                let per_chunk: Vec<Vec<u8>> = std::iter::once(wire[..n].to_vec()).chain(bounds.windows(2).map(|w| wire[w[0]..w[1]].to_vec())).collect();
+                let styles: Vec<Vec<Vec<u8>>> = match li % 3 {
+                    0 => vec![per_chunk.clone(), vec![wire.clone()]],
+                    1 => vec![per_chunk.clone(), wire.iter().map(|b| vec![*b]).collect()],
+                    _ => vec![per_chunk.clone(), cut(rng, &wire, 1, 4)],
+                };
+                for (si, pieces) in styles.iter().enumerate() {
+                    let (sc, sv) = (s.fresh("sc"), s.fresh("s"));
+                    s.run(&format!("ss.sctx {} cipher={} password={} users=-", sc, cipher, cfg.server_password));
+                    s.run(&format!("ss.new {} {} -", sv, sc));
+                    if si == 0 {
+                        // one read per chunk: the target must be known right after the read that completes it
+                        let d = feed_all(s, &sv, &pieces[..done_at + 2], false);
+                        if d.err || d.panic || d.connect.as_deref() != Some(addr.as_str()) {
+                            s.oracle_fail(&format!("ss-accept-split-address:{}", cipher), &format!("address cut {:?}: after the chunk that completes the address no target (or a wrong one) is reported: err={} target={:?}", chunks.iter().map(|c| c.len()).collect::<Vec<_>>(), d.err, d.connect));
+                            continue;
+                        }
+                        let d2 = feed_all(s, &sv, &pieces[done_at + 2..], false);
+                        if d2.err || d2.panic || [d.data, d2.data].concat() != payload {
+                            s.oracle_fail(&format!("ss-accept-split-address:{}", cipher), &format!("address cut {:?}: payload not delivered intact", chunks.iter().map(|c| c.len()).collect::<Vec<_>>()));
+                        }
+                    } else {
+                        let d = feed_all(s, &sv, pieces, false);
+                        if d.err || d.panic || d.connect.as_deref() != Some(addr.as_str()) || d.data != payload {
+                            s.oracle_fail(&format!("ss-accept-split-address:{}", cipher), &format!("address cut {:?}, {} reads: not accepted with the same result (err={} target={:?} {} bytes)", chunks.iter().map(|c| c.len()).collect::<Vec<_>>(), pieces.len(), d.err, d.connect, d.data.len()));
+                        }
+                    }
+                }
+            }
+            s.mark_nontrivial();
+        }
+    }
+}
+
 pub fn generate(s: &mut Session, tier: &str, rng: &mut Rng) {
     let Some(mut cr) = Crafter::new() else {
         s.begin_case("no-driver");
@@ -324,6 +399,7 @@ pub fn generate(s: &mut Session, tier: &str, rng: &mut Rng) {
         }
         tj_both(s, &mut cr, rng);
         vm_masks(s, &mut cr, rng);
+        ss_legacy_split_address(s, &mut cr, rng, tier == "thorough");
         // datagram layouts: byte-exact against the model (Octo.SsUdp.encode = the layouts of c03_ss_udp_layout), sizes from 0
         for cipher in CIPHERS {
             crate::c02::ss_udp_case(s, rng, cipher, false, false);
